@@ -1,0 +1,13 @@
+//go:build verif
+
+package httpdevice
+
+// Contracts for the deductive checker in /verif (comment-only file).
+
+// C09: a device that stops answering - before, while or after sending the
+// headers of a reply - ends the run: the client used for every PAN-OS and NSX
+// request bounds the whole exchange (connect, TLS, headers, body) by the
+// configured timeout; the connect alone by the login timeout.
+//vc:func GetHTTPClient
+//vc:  freshresult
+//vc:  ensures[C09] @wholeExchangeBounded result0 != nil && result0.Timeout == cfg.Timeout * 1000000000
